@@ -453,12 +453,20 @@ static void handle_include (const char *inc_name, int optional) {
 
       if ((d = lookup_define (name)) && d->nargs == -1)
         {
+          static int macro_depth = 0; /* #include A with #define A A must not recurse forever */
           char *q;
 
+          if (macro_depth >= MAX_INCLUDE_DEPTH)
+            {
+              include_error ("#include macro does not lead to a file name");
+              return;
+            }
           q = d->exps; /* #include MACRO */
           while (isspace (*q))
             q++;
+          macro_depth++;
           handle_include (q, optional);
+          macro_depth--;
         }
       else
         {
